@@ -165,16 +165,42 @@ def run_orbit_classes(ctx, specs, max_leaves=400000):
     ctx.probe("labelled_states_represented_by_orbit_lumped_kernels", sum(o["labelled_states_represented"] for o in out))
 
 
+def run_columns(ctx, specs):
+    """Exact balance at single target trees of a dozen or more clones (sim/column.py).  specs: [(config, target seed, kind)]"""
+    import random as _r
+
+    from sim import column
+
+    out = []
+    for c, tseed, kind in specs:
+        y = column.random_target(_r.Random(tseed), c["n"], kind)
+        st, probs = column.run_column(c, y)
+        if st is None:
+            ctx.probe("column_over_leaf_budget_not_judged")
+            continue
+        out.append({"config": {k: c[k] for k in ("op", "n", "alpha", "outlier_prob", "data_seed", "style", "samples")}, "target_seed": tseed, "kind": kind, **st})
+        ctx.cov["evaluations"] += st["predecessors"]
+        ctx.cov["leaves_visited"] = ctx.cov.get("leaves_visited", 0) + st["leaves"]
+        ctx.fault("rng.outcome", st["leaves"])
+        for key, detail, extra in probs:
+            ctx.violation(key, detail + " | config " + json.dumps(c, sort_keys=True), {"column": True, "config": c, "target_seed": tseed, "target_kind": kind, "key": key})
+    ctx.cov["exact_balance_at_single_targets_of_large_trees"] = out
+    ctx.probe("balance_checked_at_target_with_12_or_more_clones", sum(1 for o in out if o["clones"] >= 12))
+
+
 def run_stat_configs(ctx, configs, M):
     """Sampled invariance on five data points with all-different likelihoods (see sim/statinv.py)."""
     from sim import statinv
 
     out = []
     for i, c in enumerate(configs):
-        st, probs = statinv.run_stat(c, M, ctx.sub(("stat", i)))
+        M_default = M
+        c = dict(c)
+        Mi = c.pop("stat_M", M_default)
+        st, probs = statinv.run_stat(c, Mi, ctx.sub(("stat", i)))
         out.append({"config": c, **st})
         for key, detail, extra in probs:
-            ctx.violation(key, detail + " | config " + json.dumps(c, sort_keys=True), {"stat": True, "config": c, "key": key, "M": M, "seed": ctx.sub(("stat", i))})
+            ctx.violation(key, detail + " | config " + json.dumps(c, sort_keys=True), {"stat": True, "config": c, "key": key, "M": Mi, "seed": ctx.sub(("stat", i))})
     ctx.cov["sampled_invariance_five_data_points"] = out
     ctx.probe("sampled_updates_from_exact_posterior_draws", sum(o["M"] for o in out))
 
@@ -212,6 +238,19 @@ def replay(ctx, obj):
 
         bridge.warm_up()
         st, probs = orbits.run_class(obj["config"], orbit_class_forests(obj["class"], obj["config"]["n"]), max_leaves=3000000)
+        for key, detail, extra in probs or []:
+            if key == obj["key"]:
+                ctx.violation(key, detail, obj)
+                break
+        ctx.cov["evaluations"] = 1
+        return
+    if obj.get("column"):
+        import random as _r
+
+        from sim import column
+
+        bridge.warm_up()
+        st, probs = column.run_column(obj["config"], column.random_target(_r.Random(obj["target_seed"]), obj["config"]["n"], obj["target_kind"]))
         for key, detail, extra in probs or []:
             if key == obj["key"]:
                 ctx.violation(key, detail, obj)
